@@ -36,7 +36,8 @@ MANIFEST = dict(
           "same_attributes, same_text, same_specials, wsRule_only_whitespace, wsRule_idem, txt_chunking). SECOND ROUND TRIP: the "
           "normal form is idempotent for every forest that is DoctypeStable (explicit decidable predicate), every formatter and "
           "every configuration satisfying ConfigOK — attributes for all attribute lists (normalise_idem, normAttrs_idem, "
-          "live_config_ok, second_roundtrip, second_roundtrip_fixpoint(_iff)); without DoctypeStable it is false by a decided "
+          "live_config_ok, second_roundtrip, second_roundtrip_fixpoint(_iff), representable_normal_form, registry_cdata_agree, "
+          "parse_render_idempotent); without DoctypeStable it is false by a decided "
           "witness (doctype_text_not_fixpoint = known finding). Tie: differential runs on parsed and API-built/edited trees of both "
           "flavours (edits interleaved with renderings) under all registry formatters with the substitution functions computed by "
           "the model, every element as start; decode(formatter=arg) for registry keys incl. unknown ones, callables and Formatter "
@@ -47,9 +48,9 @@ MANIFEST = dict(
     design="7/C05",
     note=("CPython's tokenizer is not modelled: its events for each rendered text are recorded and compared with emitR (tag/"
           "comment/declaration/PI tokenisation, CDATA-content mode); character data and attribute values are read back through "
-          "C09's reader models in the Lean theorems. Representable is conservative (see Props docstring) and is not shown to be "
-          "preserved by the normal form: second_roundtrip keeps 'the normal form is representable' as a decidable hypothesis, "
-          "evaluated per case. DoctypeStable is sufficient for idempotence; the doctype newline makes the unrestricted statement "
+          "C09's reader models in the Lean theorems. Representable is conservative (see Props docstring); it is preserved by the "
+          "normal form (representable_normal_form), so parse_render_idempotent has no hypothesis about the intermediate tree. "
+          "DoctypeStable is sufficient for idempotence; the doctype newline makes the unrestricted statement "
           "false (known finding). XML flavour is built by hand (no lxml) and re-parsed with html.parser; the XML declaration "
           "BeautifulSoup.decode prepends and charset substitution in <meta> are C08's; pretty-printing is C14's. html5 is rendered "
           "and compared but is outside the round-trip quantifier (its void form <br> is not modelled in emitR)."),
@@ -253,7 +254,7 @@ TAG_RE = re.compile(r"[a-z][-.a-z0-9:_]*\Z")
 ATTR_RE = re.compile(r"[a-z_:][-.a-z0-9:_]*\Z")
 
 
-def o_representable(forest, xml, raw=False):
+def o_representable(forest, xml):
     """-> None if representable, else the first reason (same predicate as the Lean `representableL`, written independently)"""
     for st in forest:
         if st[0] == "S":
@@ -263,11 +264,7 @@ def o_representable(forest, xml, raw=False):
             if c in TEXT_CLASSES:
                 if not s:
                     return "empty-string"
-                if raw and "</" in s:
-                    return "end-tag-in-raw-text"
                 continue
-            if raw:
-                return "special-in-raw-text"
             if c == "Comment":
                 if "--" in s or s.endswith("-") or s.startswith(">") or s.startswith("->"):
                     return "comment-dashes"
@@ -278,8 +275,6 @@ def o_representable(forest, xml, raw=False):
                 return "gt-in-" + c
         else:
             nm = o_full(st)
-            if raw:
-                return "element-in-raw-text"
             if st[5]:
                 return "hidden-element"
             if not TAG_RE.match(nm):
@@ -294,9 +289,21 @@ def o_representable(forest, xml, raw=False):
                 return "duplicate-attribute"
             if not all(ATTR_RE.match(k) for k in keys):
                 return "attribute-name"
-            r = o_representable(st[6], xml, nm in P_RAW)
-            if r:
-                return r
+            if nm in P_RAW:
+                # the reader takes the content of script/style as it stands: text only, and no `</` in what is written
+                for k in st[6]:
+                    if k[0] == "T":
+                        return "element-in-raw-text"
+                    if k[1] not in TEXT_CLASSES:
+                        return "special-in-raw-text" if k[1] != "PreformattedString" else "bare-preformatted"
+                    if not k[2]:
+                        return "empty-string"
+                if "</" in "".join(k[2] for k in st[6]):
+                    return "end-tag-in-raw-text"
+            else:
+                r = o_representable(st[6], xml)
+                if r:
+                    return r
     return None
 
 
@@ -1140,6 +1147,11 @@ def roundtrip_checks(ctx, batch, recipe, root, el_index, el, stream, parsed):
                               no_failing_input=True)
             if not m_repr:
                 return
+            if fields.get("repr2") != "1":
+                ctx.corr_disagreements += 1
+                ctx.violation("the normal form of a representable forest is not representable (contradicts representable_normal_form)",
+                              case=dict(case, request=req), expected="repr2=1", observed="repr2=" + str(fields.get("repr2")),
+                              stream=stream, no_failing_input=True)
             ctx.count("trip:model-compared")
             m_evs = merge_data([x for x in fields["emit"].split("|") if x])
             if m_evs != evs:
